@@ -170,8 +170,8 @@ func recvIsField(c *ssa.Call, field string) bool {
 	if !ok {
 		return false
 	}
-	st, ok := pt.Elem().Underlying().(*types.Struct)
-	return ok && st.Field(fa.Field).Name() == field
+	_, ok = pt.Elem().Underlying().(*types.Struct)
+	return ok && fieldNameAt(pt.Elem(), fa.Field) == field
 }
 
 // allowListAssumption: block the edges taken when no (or an empty) allow-list is present, so the
